@@ -187,7 +187,7 @@ fn subsets(max: usize) -> Vec<Set> {
 
 pub fn run(tier: Tier, seed: u64) -> i32 {
     let stats = Stats::new(PROP, tier, seed);
-    let sets = subsets(tier.pick(2, 4));
+    let sets = subsets(tier.pick(2, 3));
     // (observed, facts) -> (observation, history that produced it)
     let groups: Mutex<HashMap<(usize, String), (String, serde_json::Value)>> = Mutex::new(HashMap::new());
     let record = |obs: usize, f: String, o: String, hist: serde_json::Value| {
